@@ -110,6 +110,47 @@ func decimalCases(c *Ctx, p, s int, nrand int) []cellCase {
 		}
 		add(ip, zeros(s), "groupfull")
 	}
+	// the 32-bit words of the integer part add up to exactly 2^32 or 2^33 (a sum of the words that wraps to zero says
+	// nothing about the words): needs five full 9-digit groups or more
+	if full := (ni - lead) / 9; full >= 5 {
+		for _, target := range []int64{1 << 32, 1 << 33} {
+			for try := 0; try < 40; try++ {
+				words := make([]int64, full)
+				var sum int64
+				leadVal := int64(0)
+				if lead > 0 {
+					leadVal = int64(r.Intn(int(pow10(lead))))
+				}
+				sum = leadVal
+				for i := 0; i < full-1; i++ {
+					words[i] = 500000000 + int64(r.Intn(500000000))
+					if target > 1<<32 || full > 5 {
+						words[i] = int64(r.Intn(1000000000))
+					}
+					sum += words[i]
+				}
+				last := target - sum
+				if last < 0 || last > 999999999 {
+					continue
+				}
+				words[full-1] = last
+				r.Shuffle(full, func(a, b int) { words[a], words[b] = words[b], words[a] })
+				ip := make([]int, 0, ni)
+				ds := fmt.Sprintf("%0*d", lead, leadVal)
+				if lead == 0 {
+					ds = ""
+				}
+				for _, w := range words {
+					ds += fmt.Sprintf("%09d", w)
+				}
+				for _, ch := range ds {
+					ip = append(ip, int(ch-'0'))
+				}
+				add(ip, mk(func(int) int { return r.Intn(10) }, s), "wordsum2^32")
+				break
+			}
+		}
+	}
 	for k := 0; k < nrand; k++ {
 		ip := mk(func(int) int { return r.Intn(10) }, ni)
 		fp := mk(func(int) int { return r.Intn(10) }, s)
@@ -146,7 +187,7 @@ func runC11(c *Ctx) {
 				// thin out: keep all patterns for a third of the pairs, the zero/low-digit ones for all
 				keep := cs[:0]
 				for _, x := range cs {
-					if (p+s)%3 == int(c.Seed%3) || containsAny(x.class, "allzero", "lowdigit", "lowfrac", "groupnonzero") {
+					if (p+s)%3 == int(c.Seed%3) || containsAny(x.class, "allzero", "lowdigit", "lowfrac", "groupnonzero", "wordsum2^32") {
 						keep = append(keep, x)
 					}
 				}
